@@ -2,6 +2,7 @@ import Driver.Common
 import GqlModel.Subscription
 /-! Driver for C15.
 in : {"req": {"kind":"stream","events":[[kind,n],…]} | {"kind":"oneShot","r":RES} | {"kind":"invalid","r":RES},
+      "key": response key of the root field (alias, default "tick"),
       "expect": [canonical result of event i, …] (optional; used by events of kind 99: [99,i]),
       "acts": ["produce"|"produceCtx"|"deliver"|"cancel"|"closeSource"|"observeCancel"|"finish"|"pause"|"resume"|"stop", …]}
      RES = {"t":"mapped","k":kind,"n":n} | {"t":"ctx"} | {"t":"opaque","s":"<canonical result>"}
@@ -29,24 +30,24 @@ def cfg : Cfg E R := { exec := fun e => .mapped e.1 e.2, ctxErr := .ctx }
 def errEntry (path : List String) (isCtx : Bool) : Json :=
   Json.mkObj [("path", Json.arr (path.map Json.str).toArray), ("ctx", Json.bool isCtx)]
 
-def canonical (expect : Array String) : R → Json
-  | .mapped 0 n => Json.mkObj [("data", Json.mkObj [("tick", Json.mkObj [("n", Json.num (n : JsonNumber)), ("twice", Json.num ((2 * n : Nat) : JsonNumber)), ("must", Json.num 1)])]),
+def canonical (key : String) (expect : Array String) : R → Json
+  | .mapped 0 n => Json.mkObj [("data", Json.mkObj [(key, Json.mkObj [("n", Json.num (n : JsonNumber)), ("twice", Json.num ((2 * n : Nat) : JsonNumber)), ("must", Json.num 1)])]),
                               ("errs", Json.arr #[])]
-  | .mapped 1 _ => Json.mkObj [("data", Json.mkObj [("tick", Json.null)]), ("errs", Json.arr #[errEntry ["tick"] false])]
-  | .mapped 2 n => Json.mkObj [("data", Json.mkObj [("tick", Json.mkObj [("n", Json.num (n : JsonNumber)), ("twice", Json.null), ("must", Json.num 1)])]),
-                              ("errs", Json.arr #[errEntry ["tick", "twice"] false])]
+  | .mapped 1 _ => Json.mkObj [("data", Json.mkObj [(key, Json.null)]), ("errs", Json.arr #[errEntry [key] false])]
+  | .mapped 2 n => Json.mkObj [("data", Json.mkObj [(key, Json.mkObj [("n", Json.num (n : JsonNumber)), ("twice", Json.null), ("must", Json.num 1)])]),
+                              ("errs", Json.arr #[errEntry [key, "twice"] false])]
   | .mapped 99 n =>
     -- subscription with variables: the reference result of event n (the same selection executed on the event
     -- with the raw variables), supplied with the request
     (match Json.parse (expect.getD n "\"missing reference\"") with
      | .ok j => j
      | .error _ => Json.str "unparsable reference")
-  | .mapped 3 _ => Json.mkObj [("data", Json.mkObj [("tick", Json.null)]), ("errs", Json.arr #[errEntry ["tick", "must"] false])]
+  | .mapped 3 _ => Json.mkObj [("data", Json.mkObj [(key, Json.null)]), ("errs", Json.arr #[errEntry [key, "must"] false])]
   | .mapped k _ =>
     -- closure look-alike payloads: the root resolver reports what it was given (nil arrives as an empty map)
     let code : Nat := match k with
       | 4 => 41 | 5 => 41 | 6 => 42 | 7 => 43 | 8 => 44 | 9 => 45 | _ => 46
-    Json.mkObj [("data", Json.mkObj [("tick", Json.mkObj [("n", Json.num (code : JsonNumber)), ("twice", Json.num ((2 * code : Nat) : JsonNumber)), ("must", Json.num 1)])]),
+    Json.mkObj [("data", Json.mkObj [(key, Json.mkObj [("n", Json.num (code : JsonNumber)), ("twice", Json.num ((2 * code : Nat) : JsonNumber)), ("must", Json.num 1)])]),
                 ("errs", Json.arr #[])]
   | .ctx => Json.mkObj [("data", Json.null), ("errs", Json.arr #[errEntry [] true])]
   | .opaque s => match Json.parse s with
@@ -94,6 +95,9 @@ def handle (j : Json) : Except String Json := do
   let req ← decReq (← j.getObjVal? "req")
   let names ← (← Driver.getArr j "acts").toList.mapM (fun a => a.getStr?)
   let acts ← names.mapM decAct
+  let key := match Driver.getOpt j "key" with
+    | some (.str k) => k
+    | _ => "tick"
   let expect ← match Driver.getOpt j "expect" with
     | some a => (← a.getArr?).mapM (fun x => x.getStr?)
     | none => pure #[]
@@ -105,7 +109,7 @@ def handle (j : Json) : Except String Json := do
     ("valid", Json.bool failed.isNone),
     ("failedAt", match failed with | none => Json.null | some i => Json.num i),
     ("failedAct", match failed with | none => Json.null | some i => Json.str (names.getD i "")),
-    ("delivered", Json.arr (s.delivered.map (canonical expect)).toArray),
+    ("delivered", Json.arr (s.delivered.map (canonical key expect)).toArray),
     ("closed", Json.bool s.closedSeen), ("alive", Json.bool s.goroutineAlive),
     ("terminal", Json.bool (s.terminal cfg)), ("cancelled", Json.bool s.cancelled),
     ("fwd", Json.str fwd), ("consumer", Json.str cons), ("pending", Json.num s.pending.length),
